@@ -348,7 +348,7 @@ const KEY_UNITS: [&str; 24] = [
     "a", "b", "photos", "puppy.jpg", "/", "/", "x y", "é", "中", "😀", "%", "+", "&", "=", "?", "#", ":", "@", "!", "'", "(", "*",
     "~", ",",
 ];
-const VAL_UNITS: [&str; 16] = ["a", "b", "1", "text/plain", "attachment; filename=\"x.txt\"", " ", "é", "中", "%", "+", "&", "=", ";", "/", ",", "\n"];
+const VAL_UNITS: [&str; 17] = ["?", "a", "b", "1", "text/plain", "attachment; filename=\"x.txt\"", " ", "é", "中", "%", "+", "&", "=", ";", "/", ",", "\n"];
 const MIMES: [&str; 5] = [
     "image/jpeg",
     "text/plain; charset=utf-8",
@@ -366,7 +366,11 @@ const AMZ_NAMES: [&str; 8] = [
     "x-amz-security-token",
     "x-amz-meta-zz-top",
 ];
-const AMZ_VALUES: [&str; 10] = [
+const AMZ_VALUES: [&str; 12] = [
+    // a '?' in a signed header value (a copy source naming a version): the resource part of the string to sign starts
+    // its sub-resources with '?' whatever the header lines above it contain
+    "/src-bucket/key?versionId=3",
+    "who?",
     "public-read",
     "joe@example.com",
     "jane@example.com",
